@@ -15,6 +15,7 @@ type OracleC05 struct {
 	okCount map[[2]int]int
 	hashes  map[[2]int]Hash
 	anyHash map[[2]int]bool
+	preCache []dbft.VerifCacheEntry
 }
 
 func NewOracleC05(s *Sim) *OracleC05 {
@@ -30,6 +31,11 @@ var quiescentMask = fpMask{LastSeen: false, Cache: false, Timer: true, Timing: t
 
 func (o *OracleC05) BeforeCall(n *Node, st *Step) {
 	delete(o.preFP, n.id)
+	o.preCache = nil
+	if n.d != nil && st.Op != OpStart {
+		// what the future-message cache holds before the call (see AfterCall)
+		o.preCache = n.d.VerifState().Cache
+	}
 	if st.Op == OpStart || st.Op == OpReset {
 		k := [2]int{n.id, n.inc}
 		o.okCount[k] = 0
@@ -65,6 +71,26 @@ func (o *OracleC05) AfterCall(n *Node, st *Step) {
 	}
 	d := n.d
 	s := o.s
+	// Payloads received early stay available until their height and view come: an entry of the
+	// future-message cache for the node's height (after the call) and a view ABOVE the node's
+	// view cannot have been used yet, so it must still be there when the call returns
+	// (change-view requests are handled at once whatever their view and are not cached).
+	if o.preCache != nil && !d.BlockSent() {
+		// (the cache keeps one payload per kind and validator: a later payload of the same
+		// validator may take the slot over, the slot must not become empty)
+		post := map[string]bool{}
+		for _, e := range d.VerifState().Cache {
+			if e.Height == d.BlockIndex {
+				post[fmt.Sprintf("%s/%d", e.Kind, e.Index)] = true
+			}
+		}
+		for _, e := range o.preCache {
+			if e.Height == d.BlockIndex && e.View > d.ViewNumber && e.Kind != "chViews" && !post[fmt.Sprintf("%s/%d", e.Kind, e.Index)] {
+				o.viol(n, "cached_future_view_payload_lost", "height %d view %d: %s took the cached %s payload of validator %d for view %d out of the future-message cache although the node has not reached that view", d.BlockIndex, d.ViewNumber, st.describe(), e.Kind, e.Index, e.View)
+				return
+			}
+		}
+	}
 	// the "recovering" marker only lives inside the processing of one recovery message
 	if d.VerifState().Recovering {
 		o.viol(n, "recovering_flag_left_set", "height %d view %d: %s returned with the recovering marker still set (it would give the next primary slot the backups' timeout and suppress round-trip samples)", d.BlockIndex, d.ViewNumber, st.describe())
